@@ -79,7 +79,7 @@ func genC15(r *rand.Rand) (cs c15Case) {
 var c15Seq atomic.Int64
 
 func checkC15(rep *vk.Report) {
-	rep.Rule = "(A) async execution through one of the four async entry points (plain, under retry with scripted failures, under hedge) observed by 1-16 concurrent readers that block on Done, spin on IsDone, or call Get/Result/Error at PRNG-chosen moments, with Cancel issued while the function is parked, inside a 3s retry delay, racing with completion, or after Done; yield points inside record() and executeAsync perturbed. Oracles: after Done is observed IsDone is true and the OnDone listener has returned; IsDone()==true implies Done is closed; Get/Result/Error return only after Done is closed; every reader and the OnDone event see identical values; Cancel while demonstrably in progress under retry/hedge gives ErrExecutionCanceled, a racing Cancel gives the completed result or ErrExecutionCanceled. (B) E-seq programs run once through the sync entry points and once through the async ones on fresh instances: returned value, invocation count, verdict, events and policy state must agree. Non-trivial: >=2 readers or a Cancel; distinct by (entry, composition, reader kinds, cancel kind, outcome)."
+	rep.Rule = "(A) async execution through one of the four async entry points (plain, under retry with scripted failures, under hedge) observed by 1-16 concurrent readers that block on Done, spin on IsDone, or call Get/Result/Error at PRNG-chosen moments, with Cancel issued while the function is parked, inside a 3s retry delay, racing with completion, or after Done; yield points inside record() and executeAsync perturbed. Oracles: after Done is observed IsDone is true and the OnDone listener has returned; IsDone()==true implies Done is closed; Get/Result/Error return only after Done is closed; every reader and the OnDone event see identical values; Cancel while demonstrably in progress under retry/hedge gives ErrExecutionCanceled, a racing Cancel gives the completed result or ErrExecutionCanceled. (A') one Executor value reused for several executions after one of them was cancelled through its ExecutionResult (the others are unaffected); Cancel while a rate limiter placed outermost waits for a permit. (B) E-seq programs run once through the sync entry points and once through the async ones on fresh instances: returned value, invocation count, verdict, events and policy state must agree. Non-trivial: >=2 readers or a Cancel; distinct by (entry, composition, reader kinds, cancel kind, outcome)."
 	rep.Assumptions = []string{
 		"'in progress' for the exact ErrExecutionCanceled clause means: the function has signalled that it is parked, or OnRetryScheduled has fired for a 3s delay",
 		"yield hooks result.record.* / async.* / result.cancel.between (verif tag) only perturb scheduling",
@@ -100,6 +100,13 @@ func checkC15(rep *vk.Report) {
 			return
 		}
 		c15Differential(rep, idx)
+	})
+	vk.Parallel(scale(rep, 300, 20000), 16, func(i int) {
+		if rep.Skip(70000000 + i) {
+			return
+		}
+		c15ExecutorReused(rep, 70000000+i)
+		c15CancelDuringLimiterWait(rep, 71000000+i)
 	})
 	failsafe.VerifSetYield(nil)
 	cancelStress(rep, "C15", 50000000, scale(rep, 30000, 500000))
